@@ -18,7 +18,11 @@ RULE = (
     'canonical and 3 random spellings (white space, comments, letter case of pseudo names and :not, hex escapes, quote '
     'style), parsed stand-alone and attached to a sheet with @namespace rules, and re-read from selectorText. '
     'list: sequences of appendSelector / list[i]= / selectorText= with valid, duplicate and invalid members against a '
-    'list model. Non-trivial (spec): >=2 compounds and a negation, attribute or functional pseudo; (list): an append of '
+    'list model. logmode: in error-logging mode a list with one invalid (bracket-balanced) member at every position, through a '
+    'parsed sheet (top level and inside @media), SelectorList(), selectorList.selectorText=, rule.selectorText= and '
+    'appendSelector: the whole rule must be gone, respectively the old list unchanged. ext: forms beyond Selectors 3 that cssutils '
+    'accepts (pseudo-element inside :not(), functional pseudo-elements) appended to bases of known specificity, exhaustively: if '
+    'accepted, the specificity formula must hold and survive a round trip. Non-trivial (spec): >=2 compounds and a negation, attribute or functional pseudo; (list): an append of '
     'a selector already present or a rejected assignment; distinct by canonical selector / history.'
 )
 ASSUMPTIONS = [
@@ -304,3 +308,108 @@ def check_literal(case, ctx):
 
 
 SUBS.append(Sub('literal', check_literal, enumerate=literal_cases, shards_quick=1, shards_thorough=1))
+
+
+# --------------------------------------------------------------------------- a list with an invalid member, error-logging mode
+
+VALID_M = ['a', '.b', '#c', 'd > e', 'f:hover', '[g]', ':not(.h)', 'i::before']
+INVALID_M = ['$', '1a', 'a:::b', 'a[]', '.#x', ':not(a b)', 'a:not()', '>', 'a b >', '[=v]', '#', '.']
+logmode_strategy = st.fixed_dictionaries({
+    'members': st.lists(st.integers(0, len(VALID_M) - 1), min_size=1, max_size=3),
+    'bad': st.integers(0, len(INVALID_M) - 1),
+    'pos': st.integers(0, 3),
+    'entry': st.sampled_from(['sheet', 'sheet-media', 'SelectorList()', 'selectorList.selectorText=', 'rule.selectorText=', 'appendSelector']),
+})
+
+
+def check_logmode(case, ctx):
+    members = [VALID_M[i] for i in case['members']]
+    pos = min(case['pos'], len(members))
+    bad = INVALID_M[case['bad']]
+    text = ', '.join(members[:pos] + [bad] + members[pos:])
+    entry = case['entry']
+    saved = cssutils.log.raiseExceptions
+    cssutils.log.raiseExceptions = False
+    try:
+        with lib(entry):
+            if entry in ('sheet', 'sheet-media'):
+                src = 'x { left: 0 } %s { top: 0 } y { left: 0 }' % text
+                if entry == 'sheet-media':
+                    src = '@media print { %s }' % src
+                sheet = cssutils.parseString(src)
+                rules = sheet.cssRules if entry == 'sheet' else sheet.cssRules[0].cssRules
+                got = [r.selectorText for r in rules if r.type == r.STYLE_RULE]
+                if got != ['x', 'y']:
+                    raise Violation('list:invalid-member-not-rejecting-whole-rule:' + entry, f'{src!r}: rules {got}')
+            elif entry == 'SelectorList()':
+                sl = SelectorList(selectorText=text)
+                if sl.length or sl.selectorText:
+                    raise Violation('list:invalid-member-not-rejecting-whole-list:' + entry, f'{text!r}: {sl.selectorText!r}')
+            elif entry == 'appendSelector':
+                sl = SelectorList(selectorText='k, l')
+                sl.appendSelector(bad)
+                if sl.selectorText != 'k, l':
+                    raise Violation('list:invalid-member-appended', f'{bad!r}: {sl.selectorText!r}')
+            else:
+                sheet = cssutils.parseString('k, l { top: 0 }')
+                rule = sheet.cssRules[0]
+                if entry == 'rule.selectorText=':
+                    rule.selectorText = text
+                else:
+                    rule.selectorList.selectorText = text
+                if rule.selectorText != 'k, l' or rule.selectorList.length != 2:
+                    raise Violation('list:invalid-member-not-rejecting-whole-list:' + entry, f'{text!r}: list is now {rule.selectorText!r}')
+    finally:
+        cssutils.log.raiseExceptions = saved
+    ctx.event('entry:' + entry)
+    ctx.event('bad-position:' + ('last' if pos == len(members) else 'first' if pos == 0 else 'middle'))
+    ctx.case([text, entry], pos < len(members), {'list': text, 'entry': entry})
+
+
+SUBS.append(Sub('logmode', check_logmode, strategy=logmode_strategy, quick=2500, thorough=80000, shards_quick=4))
+
+
+# --------------------------------------------------------------------------- forms beyond Selectors 3 that cssutils accepts
+
+BASES = [('a', (0, 0, 0, 1)), ('*', (0, 0, 0, 0)), ('a.b', (0, 0, 1, 1)), ('#i > b', (0, 1, 0, 1)), ('[x] c.d', (0, 0, 2, 1)), ('.e:hover', (0, 0, 1, 0))]  # pseudo-classes are not counted (statement of C16)
+EXTENSIONS = [(':not(::after)', 1), (':not(:first-line)', 1), (':NOT( ::before )', 1), ('::slotted(x)', 1), ('::foo(2n+1)', 1), (':not(::first-letter)', 1),
+              ('::After', 1), (':not(.z)', 10), (':not(#y)', 100)]
+
+
+def ext_cases(tier):
+    for bi in range(len(BASES)):
+        for ei in range(len(EXTENSIONS)):
+            for attach in (False, True):
+                yield {'base': bi, 'ext': ei, 'attach': attach}
+
+
+def check_ext(case, ctx):
+    base, bspec = BASES[case['base']]
+    ext, add = EXTENSIONS[case['ext']]
+    text = base + ext
+    exp = (0, bspec[1] + add // 100, bspec[2] + (add % 100) // 10, bspec[3] + add % 10)
+    saved = cssutils.log.raiseExceptions
+    cssutils.log.raiseExceptions = True
+    try:
+        try:
+            with lib('Selector', expect=(xml.dom.DOMException,)):
+                if case['attach']:
+                    s = cssutils.parseString(text + ' { top: 0 }').cssRules[0].selectorList[0]
+                else:
+                    s = Selector(text)
+                spec, out = tuple(s.specificity), s.selectorText
+        except xml.dom.DOMException:
+            ctx.event('extension-form-rejected')
+            return
+        if spec != exp:
+            raise Violation('ext:specificity', f'{text!r}: {spec}, expected {exp}')
+        with lib('round-trip', expect=()):
+            s2 = Selector(out)
+            if tuple(s2.specificity) != exp:
+                raise Violation('ext:round-trip', f'{text!r} -> {out!r}: {s2.specificity}')
+    finally:
+        cssutils.log.raiseExceptions = saved
+    ctx.case([text, case['attach']], True, {'selector': text, 'specificity': list(exp)})
+
+
+SUBS.append(Sub('ext', check_ext, enumerate=ext_cases, shards_quick=2, shards_thorough=2))
